@@ -13,7 +13,7 @@ From Coq Require Import List Arith Bool Relations.
 Import ListNotations.
 From RH Require Import Kernel.Conc Kernel.ConcBase Kernel.ConcClosure Kernel.ConcDeadlock
   Kernel.ConcMeasure Kernel.ConcConfl Kernel.ConcSweep Kernel.ConcGraphs Kernel.ConcProofs
-  Symtab.Symtab Symtab.SymtabProofs.
+  Kernel.ConcCoarse Symtab.Symtab Symtab.SymtabProofs.
 
 (* ---- no deadlock: in every reachable state with unfinished work some worker can step ---- *)
 Theorem C04_deadlock_free : forall deps T td s, wf_deps deps -> todo_ok (length deps) td -> 1 <= T ->
@@ -125,6 +125,19 @@ Theorem C04_F4_repaired : forall T, In T [1; 2; 3] ->
   forall s, reach depsF4 false (init 2 T) s ->
     stuck depsF4 false s = false /\ (final s = true -> locks s = [Done (Some 1); Done (Some 0)]).
 Proof. exact F4_repaired. Qed.
+
+(* seeded change: `uses` cache keyed by a non-injective projection of the unit identity (the
+   names without the library): units 0 = lib1.pkg [use lib2.util; use lib1.util], 1 = lib2.util,
+   2 = lib1.util [use lib1.pkg]; units 1 and 2 share a key, so the request for unit 2 skips the
+   registration and the cycle test and the single worker ends blocked on its own frame.  With the
+   identity as key the variant has exactly the steps of the model. *)
+Theorem C04_uses_cache_coarse_key_refuted :
+  exists s, reach_ck deps_homonym false name_key (init 3 1) s /\ stuck_ck deps_homonym false name_key s = true
+            /\ self_blocked s 0 = true.
+Proof. exact uses_cache_coarse_key_refuted. Qed.
+
+Theorem C04_coarse_key_identity : forall deps cbo s, succs_ck deps cbo (fun x => x) s = succs deps cbo s.
+Proof. exact succs_ck_id. Qed.
 
 (* findings F16/F26 (use clause that is not a selected name; fixed by 052b116) and the same defect
    at its second site (subprogram.rs resolve_signature, reported): a request whose circular error
@@ -271,6 +284,8 @@ Print Assumptions C04_deadlock_old_refuted.
 Print Assumptions C04_deadlock_old_refuted_2.
 Print Assumptions C04_F4_repaired.
 Print Assumptions C04_order_dependent_refuted.
+Print Assumptions C04_uses_cache_coarse_key_refuted.
+Print Assumptions C04_coarse_key_identity.
 Print Assumptions C04_finite_sweep.
 Print Assumptions C04_symtab_schedule_independent.
 Print Assumptions C04_symtab_insert_total.
